@@ -1,7 +1,7 @@
 #!/usr/bin/env python3
 """Run checks on the behaviour-preserving variants (mutants/equivalent/index.json): every listed
 check must exit 0 on every variant; anything else is a false alarm of the checker.
-usage: run_equivalents.py [--only SUBSTR] [--prop Cxx] [--all-props] [--json OUT]
+usage: run_equivalents.py [--only SUBSTR] [--prop Cxx] [--all-props] [--json OUT] [--jobs N]
 exit 0 if all selected (variant, property) pairs are silent, 1 otherwise."""
 import json
 import os
@@ -23,8 +23,7 @@ def main():
     prop = args[args.index('--prop') + 1] if '--prop' in args else None
     out = args[args.index('--json') + 1] if '--json' in args else None
     idx = json.load(open(os.path.join(VERIF, 'mutants', 'equivalent', 'index.json')))['variants']
-    results = []
-    bad = 0
+    sel = []
     for e in idx:
         if only and only not in e['patch']:
             continue
@@ -33,13 +32,17 @@ def main():
             if prop not in props:
                 continue
             props = [prop]
+        sel.append((e, props))
+
+    def run_one(item, target):
+        e, props = item
         t0 = time.time()
         d = mutant.make_scratch()
         res = {'patch': e['patch'], 'results': {}, 'silent': True}
         try:
             mutant.apply_patch(d, os.path.join(VERIF, 'mutants', 'equivalent', e['patch']))
             for p in props:
-                rc, keys, outp = mutant.run_check(d, p)
+                rc, keys, outp = mutant.run_check(d, p, target=target)
                 res['results'][p] = {'rc': rc, 'keys': keys}
                 if rc != 0:
                     res['silent'] = False
@@ -50,10 +53,15 @@ def main():
         finally:
             shutil.rmtree(d, ignore_errors=True)
         res['wall_s'] = round(time.time() - t0, 1)
+        return res
+
+    results = []
+    bad = 0
+    for res in mutant.parallel_map(run_one, sel, mutant.jobs_arg(args)):
         results.append(res)
         if not res['silent']:
             bad += 1
-        print('%s %s %s (%.0fs)' % ('SILENT ' if res['silent'] else 'ALARM  ', e['patch'],
+        print('%s %s %s (%.0fs)' % ('SILENT ' if res['silent'] else 'ALARM  ', res['patch'],
                                     {p: (v['rc'], v['keys'][:3]) for p, v in res['results'].items() if v['rc'] != 0}
                                     or sorted(res['results']), res['wall_s']), flush=True)
         if res.get('error'):
